@@ -1,6 +1,6 @@
 (* C05 correspondence: file-system event traces of runs, crash injection at every event, resume.
    Model observation `run`, executable statement `spec_ok`. *)
-From Verif Require Export Base.Prelude Base.StrUtil Base.Index Base.NdArr Base.PyRange Base.StrOrd
+From Verif Require Export Base.Prelude Base.StrUtil Base.Index Base.NdArr Base.PyRange Base.StrSeq
   Model.MapSpec Model.MapSpecSpec Model.MapRun Model.MapDenote Model.SymBody Model.MapResume Model.FixedSpec
   Model.CrashFS.
 From Verif Require Export Corr.Run_C06.
